@@ -1,35 +1,10 @@
-(* driver.ml — runs the extracted kernels at IEEE doubles.
-   stdin: first line "units <13 floats>", then one case per line: <kernel> <tokens...>.
-   stdout: one line per case: space-separated results (floats as %h).
-   The double instance of Num is built here and passed as an ordinary argument. *)
-
 external tgamma : float -> float = "caml_tgamma_byte" "tgamma" [@@unboxed] [@@noalloc]
-
-let rec pos_to_float = function
-  | XH -> 1.0
-  | XO p -> 2.0 *. pos_to_float p
-  | XI p -> 2.0 *. pos_to_float p +. 1.0
-let z_to_float = function Z0 -> 0.0 | Zpos p -> pos_to_float p | Zneg p -> -. pos_to_float p
-let rec pos_of_int n = if n = 1 then XH else if n land 1 = 0 then XO (pos_of_int (n lsr 1)) else XI (pos_of_int (n lsr 1))
-let z_of_int n = if n = 0 then Z0 else if n > 0 then Zpos (pos_of_int n) else Zneg (pos_of_int (-n))
-let rec nat_of_int n = if n <= 0 then O else S (nat_of_int (n - 1))
-let rec int_of_nat = function O -> 0 | S n -> 1 + int_of_nat n
-let rec fpow x n = match n with O -> 1.0 | S m -> x *. fpow x m
-
 let num : float num = {
   nadd = ( +. ); nsub = ( -. ); nmul = ( *. ); ndiv = ( /. );
   nopp = (fun x -> -. x); nabs = Float.abs; nexp = Stdlib.exp; nln = Stdlib.log;
   nsqrt = Stdlib.sqrt; ntanh = Stdlib.tanh; nrpow = ( ** ); npow = fpow; ngamma = tgamma;
   nofZ = z_to_float; npi = 4.0 *. atan 1.0;
   nltb = (fun x y -> x < y); nleb = (fun x y -> x <= y); neqb = (fun x y -> x = y) }
-
-(* ---- token stream ---- *)
-let toks = ref [||] and pos = ref 0
-let next () = let t = !toks.(!pos) in incr pos; t
-let fl () = float_of_string (next ())
-let it () = int_of_string (next ())
-let lst f = let n = it () in Stdlib.List.init n (fun _ -> f ())
-let opt f = if it () = 0 then None else Some (f ())
 
 let species () : float species =
   let kind = (match it () with 0 -> KMono | 1 -> KDi | 2 -> KPoly | _ -> KElectron) in
@@ -61,21 +36,5 @@ let units_of_line () : float units =
     r_gas = r; k_to_eV = k2e; j_to_eV = j2e; ke_c = ke; egamma = eg }
 
 
-let pf x = Printf.sprintf "%h" x
-let out_floats l = print_endline (String.concat " " (Stdlib.List.map pf l))
-let split s = Array.of_list (Stdlib.List.filter (fun x -> x <> "") (String.split_on_char ' ' s))
-let main dispatch =
-  let first = input_line stdin in
-  toks := split first; pos := 0;
-  if next () <> "units" then failwith "first line must be units";
-  let u = units_of_line () in
-  (try
-    while true do
-      let line = input_line stdin in
-      toks := split line; pos := 0;
-      let k = next () in
-      (try dispatch u k with
-       | Failure m -> print_endline ("ERROR " ^ m)
-       | Invalid_argument m -> print_endline ("ERROR " ^ m))
-    done
-  with End_of_file -> ())
+
+let main dispatch = main_with units_of_line dispatch
